@@ -16,6 +16,7 @@ struct NormalOpts {
 	bool allow_drop = false;          // a node may leave the bus at the table change
 	bool allow_feature_mismatch = false;
 	bool allow_capacity = false;
+	bool deep_tree = false;            // prefer chains of interfaces down to the third address level
 	unsigned flush_interval = 0;
 };
 
@@ -37,7 +38,7 @@ struct Normal {
 		}
 		if (o.gen.need_track_output && !c.boards.empty()) present[0] = true;
 		bus.attach(s);
-		bus.build_tree(dp, c, present, dp.range(0, o.max_unknown));
+		bus.build_tree(dp, c, present, dp.range(0, o.max_unknown), 3, o.deep_tree);
 		if (o.allow_table_change && dp.chance(50)) {
 			bus.table_change_at = dp.range(0, (int) bus.nodes[0].children.size());
 			bus.table_changes_left = dp.range(1, 2);
